@@ -11,3 +11,8 @@ package keeper
 //@   requires #count-matches-list: k.vault.GetLengthOfVault(ctx) <= len(k.vault.GetVaults(ctx))
 //@   requires #batch-bound: k.GetParams(ctx).LiquidationBatchSize <= pow2(62) && len(k.vault.GetVaults(ctx)) <= pow2(62)
 //@   nopanic
+
+// The sweep's only unprotected write is the offset holder; every per-vault step is wrapped (all-or-nothing).
+//@ func (k Keeper) Liquidate
+//@   property C15
+//@   note un-wrapped callees LiquidateBorrows and LiquidateForSurplusAndDebt are not yet under a nopanic contract
